@@ -1,6 +1,7 @@
-(** C03 — each function is run at most once (exactly once in a clean run: see C03_exactly_once). *)
+(** C03 — each function is run at most once, and exactly once in a clean run. *)
 From FG Require Import Dag Builder Sched DagFacts EdgeFacts RankFacts BuilderFacts TopoFacts AugFacts BuildFacts
-     SchedInv SafetyFacts CfgFacts StreamInv SI_Queuer SI_Step SI_Stream SafetyInv StreamFacts.
+     SchedInv SchedInv2 SafetyFacts CfgFacts StreamInv SI_Queuer SI_Step SI2_Step SI_Stream SafetyInv StreamFacts OutcomeFacts.
+From Coq Require Import Permutation.
 
 Theorem C03_at_most_once_call : forall ops G p q rev a mt ctl lim st incl imm er evs,
   build (builder_run ops) = BOk G p q ->
@@ -54,3 +55,27 @@ Proof.
   rewrite Hn in H. exact H.
 Qed.
 Print Assumptions C03_stream_none_all.
+
+(** A call that has returned without an interruption having been delivered and without a failure
+    has handed out every function of the graph, each exactly once. *)
+Theorem C03_exactly_once_clean : forall ops G p q rev a mt ctl lim st incl imm evs o,
+  build (builder_run ops) = BOk G p q ->
+  let s := run (mk_cfg G rev a mt ctl lim st incl imm true) evs in
+  result s = Some o -> w_ian (w s) = false -> failed (trace s) = [] ->
+  Permutation (starts (trace s)) (seq 0 (ncount (builder_run ops))).
+Proof.
+  intros ops G p q rev a mt ctl lim st incl imm evs o Hb s Hres Hi Hf.
+  pose proof (build_ok_intro ops G p q Hb) as Hok.
+  set (cf := mk_cfg G rev a mt ctl lim st incl imm true) in *.
+  destruct (inv2_run cf evs (cfg_ok_mk _ _ _ _ rev a mt ctl lim st incl imm true Hok) eq_refl) as [H1 H2].
+  fold s in H1, H2.
+  assert (Hn : c_n cf = ncount (builder_run ops)).
+  { unfold cf, mk_cfg. simpl. unfold fg_n. rewrite (bo_nodes _ _ _ _ Hok). reflexivity. }
+  assert (Herr : s_err s = None).
+  { destruct (s_err s) eqn:He; [|reflexivity]. exfalso.
+    destruct (x_serr_some _ _ H2 n He) as (_ & _ & T1 & Ht & _). rewrite Ht, failed_app in Hf. simpl in Hf.
+    destruct (failed T1); discriminate. }
+  rewrite <- Hn. apply (ret_all_started cf s o H1 H2 Hres).
+  apply (ret_finished_iff cf s o H1 H2 Hres Herr). apply (ret_clean_finished cf s o H1 H2 Hres Herr Hi Hf).
+Qed.
+Print Assumptions C03_exactly_once_clean.
